@@ -12,22 +12,36 @@ def main(tier, args):
     inp = vf.build("C09/inputs", [HI], srcs + vf.module_sources("log/async_file_sink.cpp", "log/sync_stdout_sink.cpp", "log/async_stdout_sink.cpp", "util/fs.cpp", "util/string.cpp"), mode="asan")
     work = vf.BUILD + "/C09/work"; shutil.rmtree(work, ignore_errors=True); os.makedirs(work)
     res = vf.Result(); log = open(vf.BUILD + "/C09/log.txt", "w")
-    # scenarios: 0 = one logger x2 records, 1 = two loggers x2 records, 2 = two loggers x1 record, 3 = async sink only, two loggers
+    # scenarios: 0 = one logger x2 records, 1 = two loggers x2 records, 2 = two loggers x1 record, 3 = async sink only, two loggers,
+    #            4 = one logger x2 records while main disables both sinks, 5 = one logger x3 records while main disables and re-enables the async sink
     if tier == "quick":
         dl = 90
         S = [("plain", plain, 0, 48, 1), ("plain", plain, 0, 200, 2), ("plain", plain, 1, 200, 1), ("plain", plain, 1, 48, 0), ("plain", plain, 2, 48, 1), ("plain", plain, 3, 200, 1),
-             ("asan", asan, 0, 48, 1), ("asan", asan, 2, 200, 0), ("tsan", tsan, 0, 48, 1), ("tsan", tsan, 2, 200, 0), ("tsan", tsan, 1, 200, 0)]
+             ("plain", plain, 4, 48, 2), ("plain", plain, 4, 200, 1), ("plain", plain, 5, 48, 1), ("plain", plain, 5, 200, 1),
+             ("asan", asan, 0, 48, 1), ("asan", asan, 2, 200, 0), ("asan", asan, 4, 48, 1), ("asan", asan, 5, 200, 1), ("tsan", tsan, 0, 48, 1), ("tsan", tsan, 2, 200, 0), ("tsan", tsan, 1, 200, 0), ("tsan", tsan, 4, 48, 1), ("tsan", tsan, 5, 200, 1)]
     else:
         dl = 1200
         S = [("plain", plain, 0, 48, 3), ("plain", plain, 1, 200, 2), ("plain", plain, 1, 48, 1), ("plain", plain, 2, 48, 2), ("plain", plain, 3, 200, 2), ("plain", plain, 3, 48, 1),
-             ("asan", asan, 0, 48, 2), ("asan", asan, 1, 200, 1), ("asan", asan, 2, 48, 1), ("tsan", tsan, 0, 48, 2), ("tsan", tsan, 1, 200, 1), ("tsan", tsan, 2, 48, 1)]
+             ("plain", plain, 4, 48, 3), ("plain", plain, 4, 200, 2), ("plain", plain, 5, 48, 2), ("plain", plain, 5, 200, 2),
+             ("asan", asan, 0, 48, 2), ("asan", asan, 1, 200, 1), ("asan", asan, 2, 48, 1), ("asan", asan, 4, 48, 2), ("asan", asan, 5, 48, 1), ("tsan", tsan, 0, 48, 2), ("tsan", tsan, 1, 200, 1), ("tsan", tsan, 2, 48, 1), ("tsan", tsan, 4, 48, 2), ("tsan", tsan, 5, 48, 1)]
     jobs = [("%s:s%d_b%d" % (m, s, b), [exe, str(s), str(b), str(bd)]) for (m, exe, s, b, bd) in S]
     jobs += [("inputs:len", [inp, "len"]), ("inputs:filter", [inp, "filter"]), ("inputs:file", [inp, "file", work]), ("inputs:stdout", [inp, "stdout", work]), ("inputs:filterseq", [inp, "filterseq", "4" if tier == "quick" else "6"])]
+    LP = 6        # the life-cycle BFS is partitioned by its first op over LP processes
+    jobs += [("inputs:lifecycle_p%d" % p, [inp, "lifecycle", "5" if tier == "quick" else "7", str(p), str(LP)]) for p in range(LP)]
     if args.only: jobs = [j for j in jobs if j[0] == args.only]
     vf.run_procs(res, jobs, env={"VERIF_DEADLINE_S": str(dl), "VERIF_WORKERS": "3", "VERIF_TIER": tier, "TSAN_OPTIONS": "report_signal_unsafe=0:exitcode=0"}, log=log, jobs=7)
     shutil.rmtree(work, ignore_errors=True)
     vf.finish(PID, tier, res, t0,
               rule="(S) stateless DFS over all interleavings (preemption+timed-flush deviations bounded per scenario: " + ", ".join("%s s%d buf%d <=%d" % (m, s, b, bd) for (m, e, s, b, bd) in S) + ") of 1-2 logging threads calling the real LogPrintfFunc into a synchronous recording Sink and an AsyncSink on the real AsyncPipe (buffers smaller than one record), then disable(); every line must equal an expected record, each once, per-thread order kept. "
-                   "(I) exhaustive sweeps: text length {0..8, 2046..2050, max-1, max, max+1, max+7} x max in {1,10,2047,2048,2049,4096} x {puts, %s, %c%s}; all 8 levels x 8 default thresholds x {unset,0..7} per-module threshold (+unset) x 2 modules on both sink kinds; "
-                   "BFS over histories (depth 4, thorough 6) of setLevel(default|module)/unsetLevel(module)/log(module,level) on one long-lived sink of each kind; both stdout sinks (fd 1 captured): colour x 8 levels x max {4,100} x lengths {0,1,4,5,9} x with/without function name against the documented record format; file sink with size limit in {1, record-1, record, record+1, 3 records, 1 MiB} x 1..6 records x 3 pacings under a virtual wall clock (same-second roll-over): files concatenated in creation order == records, none split",
-              assumptions=["module/function/file strings have static storage as __func__/__FILE__ do (the async back-end dereferences them later)", "maximum text length 0 is not in the enumerated domain", "pacing in the file-sink sweep uses real 150 ms sleeps only to let the 100 ms timed flush happen; correctness does not depend on it"])
+                   "Scenarios s4/s5: main calls disable() on both sinks (s4), or disable() then enable() then disable() on the async sink (s5), WHILE one thread is logging 2-3 records; oracle: delivered lines are whole, at most once and in order, a record whose call started and returned inside one enabled period is present, one whose call lay entirely inside the disabled period is absent, nothing is added after disable() returned. "
+                   "(I) exhaustive sweeps: text length {0..8, 2046..2050, max-1, max, max+1, max+7} x max in {1,10,2047,2048,2049,4096} x {puts, %s, %c%s} x text alphabet {letters, printf conversions such as %s%d%%%n} with the async line compared WHOLE (head with level code, time, usec, thread id, module); degenerate calls {fmt NULL, module NULL, function NULL, file NULL, file without directory / ending in '/', level -1, -1000, 8, 1000} x {puts, printf}; "
+                   "all 8 levels x 8 default thresholds (set by setLevel(l), and by setLevel(\"\", l) over an earlier different default) x {unset,0..7} per-module threshold (+unset) x 2 modules on both sink kinds; "
+                   "BFS over histories (depth 4, thorough 6) of setLevel(default|module)/unsetLevel(module)/log(module,level) on one long-lived sink of each kind, whole async lines; "
+                   "BFS over life-cycle histories (depth 5, thorough 7; state key = model + registration state of each sink + last two ops) of enable(k)/disable(k)/setLevel(k,{2,6})/log({1,4,7})/clock+1s on TWO long-lived sinks k in {synchronous recorder, AsyncSink with 64-byte pipe buffers} with independent thresholds: every call is judged per sink by the model (enabled and passes that sink's threshold <=> exactly one whole record with the time of the call), the async output is compared byte for byte whenever its disable() returns and at the end (covers re-enable of the same object, double enable/disable, removal of the right channel, dispatch past a rejecting sink, records logged while disabled never turning up); "
+                   "both stdout sinks (fd 1 captured): colour x 8 levels x max {4,100} x lengths {0,1,4,5,9} x with/without function name against the documented record format, plus one long-lived sink of each kind x colour over the sequence log@T,T,T+1,T+1,T+1h,T(clock stepped back),disable,log,enable,log@T+2,T+3,disable,log,enable,log@T+4,disable (time field of every record = second of ITS call); "
+                   "file sink with size limit in {1, record-1, record, record+1, 3 records, 1 MiB} x 1..6 records x 3 pacings under a virtual wall clock (same-second roll-over), and on the burst pacing additionally x life-cycle {log,disable | log,disable(check disk),log-while-disabled,enable,log,disable on the same object | log, sink destroyed while enabled} x pipe buffers {10 KiB default, 64 B: roll-over while the back-end holds a partial frame} x O_DSYNC {off,on} x directory spelling {dir, dir/, ' dir '}: files concatenated in creation order == the WHOLE expected lines (level code, time of the call, usec, tid, module, function, text, file:line) of the records logged while enabled, none split",
+              assumptions=["module/function/file strings have static storage as __func__/__FILE__ do (the async back-end dereferences them later)", "maximum text length 0 is not in the enumerated domain", "pacing in the file-sink sweep uses real 150 ms sleeps only to let the 100 ms timed flush happen; correctness does not depend on it",
+                           "a log call that overlaps disable()/enable() of a sink in time may or may not be delivered to it (the statement speaks of calls made while the sink is enabled); only calls entirely inside one period are demanded present/absent",
+                           "degenerate arguments: an absent module only has to be rendered as some non-empty name; a level below 0 must yield exactly one record, a level above 7 at most one (the statement does not say how out-of-range levels compare with thresholds); in both cases the record must be whole",
+                           "destroying an AsyncFileSink that is still enabled is read as an implicit disable (its destructor flushes); the same for AsyncStdoutSink / a bare AsyncSink is NOT exercised by default (candidate defect, switch C09_DTOR_ASYNC_STDOUT=1): AsyncSink has no destructor, so pending records are flushed from ~AsyncPipe into already destroyed members",
+                           "sinks do not log from inside their own callbacks (the dispatch lock is not recursive); enable/disable/setLevel of one sink are issued from one thread at a time"])
